@@ -1,6 +1,7 @@
 SPECIFICATION Spec
 CONSTANTS
   WorkerCpus <- C_Workers
+  WorkerGroup <- C_Groups
   Menu <- C_Menu
   Classes <- C_Classes
   MaxLosses = 1
@@ -40,6 +41,8 @@ INVARIANTS
   C13_CompletedOnce
   C14_AbortAllOnExceed
   C14_ExceededStopped
+  C05_MnExclusive
+  C05_MnWorkersIdle
   C01_OutcomeAtRest
   C02_QuiescentOk
 PROPERTIES
